@@ -27,13 +27,21 @@ CLASSIFIER = "cyclic_back_reference"
 
 
 # ---------------------------------------------------------------- documented behaviour (oracle)
-def abs_import(cur, imp):
-    name = (cur.rsplit(".", 1)[0] + "." + imp) if "." in cur else imp
+class FS(dict):
+    """namespace -> file, plus the namespace of the main grammar"""
+    main = None
+
+
+def abs_import(cur, imp, main):
+    # the main grammar sits in the root folder whatever its file name is (fixed 76155a4)
+    name = (cur.rsplit(".", 1)[0] + "." + imp) if ("." in cur and cur != main) else imp
     return ".".join(p for p in name.split(".") if p)
 
 
 def fs_map(case):
-    return {ns: f for ns, f in case["fs"]}
+    fsm = FS((ns, f) for ns, f in case["fs"])
+    fsm.main = case["mainns"]
+    return fsm
 
 
 def defines(fsm, ns, name):
@@ -53,7 +61,7 @@ def spec_resolve(fsm, cur, name):
     if name in BASE_NAMES:
         return (BASE, name)
     for imp in fsm[cur]["imports"]:
-        a = abs_import(cur, imp)
+        a = abs_import(cur, imp, fsm.main)
         if defines(fsm, a, name):
             return (a, name)
     return None
@@ -77,7 +85,7 @@ def load_order(fsm, main):
             return
         order.append(ns)
         for imp in fsm[ns]["imports"]:
-            a = abs_import(ns, imp)
+            a = abs_import(ns, imp, fsm.main)
             if a in seen:
                 if a in stack + [ns]:
                     backs.append((ns, a))
@@ -113,7 +121,7 @@ def classify(fsm, main):
     def go(ns, stack, seen):
         anc[ns] = list(stack)
         for imp in fsm[ns]["imports"]:
-            a = abs_import(ns, imp)
+            a = abs_import(ns, imp, fsm.main)
             if a not in seen and a in fsm:
                 seen.add(a)
                 go(a, stack + [ns], seen)
@@ -122,7 +130,7 @@ def classify(fsm, main):
     for ns, stack in anc.items():
         if not stack:
             continue
-        imps = [abs_import(ns, i) for i in fsm[ns]["imports"]]
+        imps = [abs_import(ns, i, fsm.main) for i in fsm[ns]["imports"]]
         for r in fsm[ns]["rules"]:
             for kind, name in r["items"]:
                 if "." in name:
@@ -156,6 +164,8 @@ def gen_case(r, i):
     mode = r.weighted([("valid", 7), ("mixed", 3)])
     cyclic = r.chance(0.3)
     nss = [r.choice(FNAMES)]               # the main grammar sits in the main folder
+    if r.chance(0.12):
+        nss[0] = r.choice(["my.", "p.", "v1."]) + nss[0]     # a main file name with a dot: `p.a.tx` next to the folder p/
     while len(nss) < nfiles:
         # the same file name may occur in several folders (p/b.tx and b.tx are different grammars)
         d = r.choice(DIRS)
@@ -173,7 +183,7 @@ def gen_case(r, i):
         files.append({"ns": ns, "imports": [], "rules": [{"name": n, "items": []} for n in rn]})
     # imports: acyclic by construction (only files later in the list), optional back edges
     for k, f in enumerate(files):
-        d = f["ns"].rsplit(".", 1)[0] + "." if "." in f["ns"] else ""
+        d = f["ns"].rsplit(".", 1)[0] + "." if ("." in f["ns"] and k > 0) else ""
         cands = [g for j, g in enumerate(files) if g["ns"].startswith(d) and (j > k or (cyclic and j != k and r.chance(0.5)) or (cyclic and j == k and r.chance(0.1)))]
         nimp = r.weighted([(0, 1), (1, 3), (2, 4), (3, 2)]) if k < len(files) - 1 else r.weighted([(0, 5), (1, 2), (2, 1)])
         if k == 0:
@@ -192,11 +202,12 @@ def gen_case(r, i):
             f["imports"].append(r.choice(f["imports"]))          # the same file imported twice
         if mode == "mixed" and r.chance(0.06):
             f["imports"].insert(r.below(len(f["imports"]) + 1), r.choice(["nofile", "p.nofile", BASE]))
-    fsm = {f["ns"]: f for f in files}
+    fsm = FS((f["ns"], f) for f in files)
+    fsm.main = files[0]["ns"]
     # references
     for f in files:
         ns = f["ns"]
-        imps = [abs_import(ns, x) for x in f["imports"]]
+        imps = [abs_import(ns, x, fsm.main) for x in f["imports"]]
         visible = [x["name"] for x in f["rules"]]
         for a in imps:
             if a in fsm:
@@ -230,12 +241,16 @@ def gen_case(r, i):
 
 def build_case(files, nested_root):
     """files: list of {ns, imports, rules:[{name, items}]}; first is the main grammar."""
-    fsm = {f["ns"]: f for f in files}
+    fsm = FS((f["ns"], f) for f in files)
     main = files[0]["ns"]
+    fsm.main = main
     prefix = "w/" if nested_root else ""
     phys = {}
     for k, f in enumerate(files):
-        phys[prefix + f["ns"].replace(".", "/") + ".tx"] = render(f, k)
+        path = f["ns"] if k == 0 else f["ns"].replace(".", "/")     # the main file name may contain dots
+        if k > 0 and prefix + path + ".tx" in phys:
+            continue
+        phys[prefix + path + ".tx"] = render(f, k)
     if nested_root:
         # decoys outside the main grammar's folder must never be picked up
         for k, f in enumerate(files[1:], 1):
@@ -318,6 +333,11 @@ def corpus_cases():
     cs.append(build_case([F("a", ["p.b", "p..b", ".p.b", "p.c"], [("Main", [("r", "X"), ("c", "a.Main"), ("r", "INT")])]),
                           F("p.b", ["c"], [("X", [("r", "Y"), ("r", "INT")])]),
                           F("p.c", [], [("Y", []), ("INT", [])])], False))
+    # a main grammar whose file name contains a dot imports relative to its own folder (fixed 76155a4)
+    cs.append(build_case([F("my.g", ["b", "p.c"], [("Main", [("r", "X"), ("r", "Y"), ("r", "my.g.Main")])]),
+                          F("b", [], [("X", [])]),
+                          F("p.c", ["d"], [("Y", [("r", "Z")])]),
+                          F("p.d", [], [("Z", [])])], False))
     # diamond with overriding names
     cs.append(build_case([F("a", ["b", "c"], [("Main", [("r", "X"), ("r", "Y"), ("r", "W"), ("r", "c.W")]), ("Y", [])]),
                           F("b", ["d"], [("X", [("r", "W")]), ("Y", [])]),
@@ -470,7 +490,7 @@ def oracle(case, o):
     # by the referring one and is simply not loaded yet: the property does not say.
     lenient = False
     for ns in order:
-        imps = [abs_import(ns, i) for i in fsm[ns]["imports"]]
+        imps = [abs_import(ns, i, fsm.main) for i in fsm[ns]["imports"]]
         for rule in fsm[ns]["rules"]:
             for kind, name in rule["items"]:
                 if "." in name and name.rsplit(".", 1)[0] not in imps + [ns]:
@@ -606,6 +626,8 @@ def run(chk):
         chk.stat("files loaded %d" % min(len(order), 6))
         if backs:
             chk.stat("import cycles")
+        if "." in c["mainns"]:
+            chk.stat("main file name with a dot")
         if any("." in ns for ns in order):
             chk.stat("nested folders")
         diffs = compare(c, o, mv)
